@@ -185,12 +185,8 @@ fn windowed_step_case(offset: Option<u8>) {
     model[row as usize] |= 1u64 << col;
     check_consistent(&s, &model);
     assert!(s.window_offset == o0);
-    if o0 > 0 {
-        kani::cover!(s.num_coupons == c0 + 1 && (col as u8) < o0); // surprising zero removed
-    }
-    if o0 < 56 {
-        kani::cover!(s.num_coupons == c0 + 1 && (col as u8) >= o0 + 8); // surprising one added
-    }
+    kani::cover!(o0 == 0 || (s.num_coupons == c0 + 1 && (col as u8) < o0)); // surprising zero removed
+    kani::cover!(o0 >= 56 || (s.num_coupons == c0 + 1 && (col as u8) >= o0 + 8)); // surprising one added
     kani::cover!(s.num_coupons == c0 + 1 && (col as u8) >= o0 && (col as u8) < o0 + 8); // window bit set
     kani::cover!(s.num_coupons == c0);
     core::mem::forget(s);
@@ -223,10 +219,10 @@ macro_rules! windowed_step {
 //@ bounds: lg_k = 4, any windowed state: all 16 window bytes symbolic, window offset concrete per instance (0: Hybrid / Pinned, 1, 5, 56: Sliding; the *_any_offset instance has it symbolic 0..=56), <= 2 surprising values in a 4-slot table (any valid layout), first_interesting_column <= offset; one symbolic (row, col); steps that would move the window are excluded (assumed away, move_window is a self-checking cut)
 //@ assumes: representation invariant of a windowed sketch: num_coupons = popcount of the represented matrix, offset = floor((8C-19K)/8K), C >= 3K/32, surprising values lie outside the window, columns below first_interesting_column are full
 //@ desc: one update from an arbitrary windowed state (early-zone inverted logic, window bit, late surprising value): matrix' = matrix | bit, num_coupons = popcount, validate(), offset and first_interesting_column still valid
-windowed_step!(c05_windowed_step_offset_0, Some(0)); //@ tier: quick
-windowed_step!(c05_windowed_step_offset_1, Some(1)); //@ tier: quick
+windowed_step!(c05_windowed_step_offset_0, Some(0));
+windowed_step!(c05_windowed_step_offset_1, Some(1));
 windowed_step!(c05_windowed_step_offset_5, Some(5));
-windowed_step!(c05_windowed_step_offset_56, Some(56)); //@ tier: quick
+windowed_step!(c05_windowed_step_offset_56, Some(56));
 windowed_step!(c05_windowed_step_any_offset, None);
 //@ endfamily: x
 
